@@ -438,8 +438,14 @@ static int ser_nested_fn(struct json_object *o, struct printbuf *pb, int level, 
 	s = json_object_to_json_string_ext(helper, flags & ~JSON_C_TO_STRING_PRETTY);
 	return s ? printbuf_memappend(pb, s, (int)strlen(s)) : -1;
 }
+/* mode 4: the library's own json_object_userdata_to_json_string with a heap string as userdata and a deleter of the caller's that logs uid 4242 and frees the string */
+extern void vf_free(void *p); extern char *vf_strdup(const char *s);
+/* (the string may have been duplicated by the library, i.e. through the ledger: both the original and the copies go through the ledger's strdup/free) */
+static void del_logging_free(struct json_object *j, void *ud) { (void)j; if (dlog_n < DLOG_MAX) dlog[dlog_n++] = 4242; vf_free(ud); }
 /* SS <h> <uid> <custom 0|1|2|3>   set_serializer (2: a serializer that writes something and then reports failure; 3: one that re-enters the library) */
-static void cmd_ss(int nt, char **t) { int h = hidx(t[1]); (void)nt; json_object_set_serializer(H[h], L(t[3]) == 3 ? ser_nested_fn : L(t[3]) == 2 ? ser_fail_fn : L(t[3]) ? ser_fn : NULL, (void *)(intptr_t)L(t[2]), L(t[2]) ? del_cb : NULL); ob_puts(&out, "= ok"); emit_dlog(); }
+static void cmd_ss(int nt, char **t) { int h = hidx(t[1]); (void)nt;
+	if (L(t[3]) == 4) { json_object_set_serializer(H[h], json_object_userdata_to_json_string, vf_strdup("\"text kept by the caller\""), del_logging_free); ob_puts(&out, "= ok"); emit_dlog(); return; }
+	json_object_set_serializer(H[h], L(t[3]) == 3 ? ser_nested_fn : L(t[3]) == 2 ? ser_fail_fn : L(t[3]) ? ser_fn : NULL, (void *)(intptr_t)L(t[2]), L(t[2]) ? del_cb : NULL); ob_puts(&out, "= ok"); emit_dlog(); }
 
 /* GETN <h> <n>: n times json_object_get; PUTN <h> <n>: n times json_object_put -> = <number of puts that returned 1> first=<index of the first such put | -1> del=.. (many-owner histories) */
 static void cmd_getn(int nt, char **t) { int h = hidx(t[1]); unsigned long n = UL(t[2]), i; (void)nt; for (i = 0; i < n; i++) { json_object_get(H[h]); if (!(i & 0xFFFFFF)) vf_progress++; } ob_puts(&out, "= ok"); }
@@ -613,10 +619,19 @@ static int cmp_uid(const void *a, const void *b)
 }
 static void cmd_asort(int nt, char **t) { (void)nt; json_object_array_sort(H[hidx(t[1])], cmp_uid); ob_puts(&out, "= ok"); emit_dlog(); }
 /* ABS <harr> <hkey> -> = <found uid|-1|n> */
+static struct json_object *bs_key; static int bs_order_bad;
+static int cmp_key_first(const void *a, const void *b)
+{
+	if (*(struct json_object *const *)a != bs_key) bs_order_bad++;
+	return cmp_uid(a, b);
+}
 static void cmd_abs(int nt, char **t)
 {
-	struct json_object *r = json_object_array_bsearch(H[hidx(t[2])], H[hidx(t[1])], cmp_uid); (void)nt;
-	ob_printf(&out, "= %ld", r ? uid_of(r) : -2L);
+	struct json_object *r; (void)nt;
+	/* bsearch contract: the comparator's FIRST argument is the key, the second a member of the array (they may be of different shapes): cmp_key_first notes any call where that is not so */
+	bs_key = H[hidx(t[2])]; bs_order_bad = 0;
+	r = json_object_array_bsearch(H[hidx(t[2])], H[hidx(t[1])], cmp_key_first);
+	ob_printf(&out, "= %ld keyfirst_violations=%d", r ? uid_of(r) : -2L, bs_order_bad);
 }
 
 /* UIDS <h> -> structure with uids: <uid> | <uid>[ ... ] | <uid>{ k<hex> ... } | n */
